@@ -736,4 +736,3 @@ func TestC08(t *testing.T) {
 
 	R.Finish(t)
 }
-
